@@ -927,6 +927,107 @@ def run_live(ctx):
             ctx.trace_ok()
 
 
+
+# =========================================================================================== noise-free configurations
+
+NOISE_FREE_MECHS = ("LaplaceTruncated", "LaplaceFolded", "LaplaceBoundedDomain")
+
+
+def noise_free_case(ctx, mech, p, value, streams):
+    """a configuration in which the mechanism adds no noise (sensitivity 0, epsilon inf, delta 1, or a single-point
+    domain): the output is a point mass, read off `randomise` on several scripted streams (both generator back-ends);
+    bias / variance / mse must be its moments:  bias = output - value, variance = 0, mse = bias^2."""
+    outs = []
+    for k, us in enumerate(streams):
+        with K2.backend("numpy" if k == len(streams) - 1 else "system"):
+            m = K2.mk(mech, p, random_state=K2.srng(us))
+            outs.append(float(quiet(m.randomise, value)))
+    inp = {"mech": mech, "params": p, "value": value, "noise_free": True, "outputs": outs[:3]}
+    desc = f"{mech}({', '.join(f'{k}={v!r}' for k, v in p.items())})"
+    if any(o != outs[0] and not (o != o and outs[0] != outs[0]) for o in outs):
+        emit(ctx, f"C19:{mech}:noise-free:not-a-point-mass",
+             f"{desc}: no noise is called for, but randomise({value!r}) returns different values on different streams: {outs}", inp)
+        return False
+    out = outs[0]
+    true = {"bias": out - value, "variance": 0.0, "mse": (out - value) ** 2}
+    m = K2.mk(mech, p)
+    ok = True
+    for name in ("bias", "variance", "mse"):
+        rep, err = call(getattr(m, name), value)
+        if rep is None:
+            if err != "NotImplementedError":
+                emit(ctx, f"C19:{mech}:noise-free:moments", f"{desc}.{name}({value!r}) raises {err}; randomise always returns {out!r}", inp)
+                ok = False
+            continue
+        r = float(rep)
+        if r != r or abs(r - true[name]) > 1e-6 * abs(true[name]) + 1e-9:
+            emit(ctx, f"C19:{mech}:noise-free:moments",
+                 f"{desc}: no noise is added and randomise({value!r}) always returns {out!r} (a point mass: {name} = "
+                 f"{true[name]!r}), but {name}({value!r}) reports {r!r}", inp)
+            ok = False
+    return ok
+
+
+def gen_noise_free(r, mech):
+    """(params, value): sensitivity 0 / epsilon inf / delta 1 / lower == upper  x  value inside / on / outside the domain"""
+    kind = r.choice(["sens0", "sens0", "epsinf", "delta1", "point"])
+    lo = r.choice([0.0, -1.0, r.uniform(-50, 50)])
+    w = r.choice([1.0, r.loguniform(1e-3, 1e3)])
+    p = {"epsilon": K2.g_eps(r), "delta": r.choice([0.0, 0.0, r.uniform(0.0, 0.9)]), "sensitivity": r.choice([1.0, r.loguniform(1e-3, 1e3)]),
+         "lower": lo, "upper": lo + w}
+    if kind == "sens0":
+        p["sensitivity"] = 0.0
+    elif kind == "epsinf":
+        p["epsilon"] = math.inf
+    elif kind == "delta1":
+        p["delta"] = 1.0
+    else:
+        p["upper"] = lo
+        if r.chance(0.4):
+            p["sensitivity"] = 0.0
+    scale_zero = p["sensitivity"] == 0 or math.isinf(p["epsilon"]) or p["delta"] == 1.0
+    hi = p["upper"]
+    if not scale_zero:
+        value = lo          # single-point domain with a positive scale: only the point itself is "inside" — an outside
+        #                     value there goes through the noisy closed forms (the open `value-outside-domain` class)
+    else:
+        value = r.choice([lo, hi, (lo + hi) / 2, lo + (hi - lo) * r.u01(), lo - r.choice([3.0, r.loguniform(1e-3, 1e3)]),
+                          hi + r.choice([3.0, r.loguniform(1e-3, 1e3)]), lo - (hi - lo) * 2.5, hi + (hi - lo) * 7.25])
+    return p, value
+
+
+def run_noise_free(ctx):
+    r = ctx.fork("noise-free")
+    fixed = [("LaplaceBoundedDomain", {"epsilon": 1.0, "delta": 0.0, "sensitivity": 0.0, "lower": 0.0, "upper": 1.0}, -3.0),
+             ("LaplaceTruncated", {"epsilon": 1.0, "delta": 0.0, "sensitivity": 0.0, "lower": 0.0, "upper": 1.0}, 4.0),
+             ("LaplaceFolded", {"epsilon": 1.0, "delta": 0.0, "sensitivity": 0.0, "lower": 0.0, "upper": 1.0}, -3.25),
+             ("LaplaceBoundedDomain", {"epsilon": math.inf, "delta": 0.0, "sensitivity": 1.0, "lower": 0.0, "upper": 1.0}, 2.0),
+             ("LaplaceBoundedDomain", {"epsilon": 1.0, "delta": 1.0, "sensitivity": 1.0, "lower": 0.0, "upper": 1.0}, -0.5),
+             ("LaplaceBoundedDomain", {"epsilon": 1.0, "delta": 0.0, "sensitivity": 1.0, "lower": 2.0, "upper": 2.0}, 2.0)]
+    cases = list(fixed)
+    for i in range(ctx.budget(90, 1500)):
+        mech = NOISE_FREE_MECHS[i % len(NOISE_FREE_MECHS)]
+        p, v = gen_noise_free(r.fork(i), mech)
+        cases.append((mech, p, v))
+    for i, (mech, p, v) in enumerate(cases):
+        rr = r.fork(("s", i))
+        streams = [[rr.u01() for _ in range(64)] for _ in range(3)] + [[rr.u01() for _ in range(64)]]
+        try:
+            ok = noise_free_case(ctx, mech, p, v, streams)
+        except seams.ScriptExhausted:
+            emit(ctx, f"C19:{mech}:noise-free:not-a-point-mass",
+                 f"{mech}({p}).randomise({v!r}) consumed more than 64 uniforms although no noise is called for",
+                 {"mech": mech, "params": p, "value": v, "noise_free": True})
+            continue
+        except (ArithmeticError, ValueError, TypeError, RecursionError) as e:
+            ctx.disagree(f"moments.{mech}.noise-free-raises", {"params": p, "value": v}, "moments", f"{type(e).__name__}: {e}")
+            continue
+        ctx.case(("noise-free", mech, i))
+        ctx.count("noise_free_cases")
+        if ok:
+            ctx.trace_ok()
+
+
 def check(ctx):
     K2._honour_scale(ctx)
     pts = gen_points(ctx, ctx.budget(1200, 30000))
@@ -942,6 +1043,7 @@ def check(ctx):
             pts.insert(0, Pt(mech, p, uj(inp.get("value", 0.0))))
     run_points(ctx, pts)
     run_live(ctx)
+    run_noise_free(ctx)
 
 
 def replay(ctx, data):
@@ -955,6 +1057,10 @@ def replay(ctx, data):
         v = int(v)
     pt = Pt(dd["mech"], p, v)
     before = len(ctx.violations)
+    if dd.get("noise_free"):
+        rr = gen.SplitMix64(12345)
+        streams = [[rr.u01() for _ in range(64)] for _ in range(4)]
+        return not noise_free_case(ctx, dd["mech"], p, v, streams)
     if "live" in dd:
         lv = dd["live"]
         p1 = {k: uj(x) for k, x in lv["constructed_with"].items()}
